@@ -27,7 +27,7 @@ def meta(tier, seed):
         "oracle": "copy and original give identical predict / predict_expectations (or the same exception class) after "
                   "every continuation; training and querying the copy leaves the original's outputs unchanged; "
                   "protocol-4 pickles restored in a fresh interpreter give the same outputs as the original in-process",
-        "bounds": {"bfs_depth": 2 if tier == "quick" else 3, "continuation_depth": 1 if tier == "quick" else 2,
+        "bounds": {"bfs_depth": 2 if tier == "quick" else "3 (int labels), 2 (str labels)", "continuation_depth": 1,
                    "methods": (QUICK_METHODS if tier == "quick" else METHODS) + ["pickle4 -> fresh interpreter"], "labels": ["int", "str"]},
         "assumptions": ["binarizers are module-level functions of the harness (picklable), as the property states"],
     }
@@ -37,8 +37,8 @@ def shards(tier, seed):
     out = []
     for ln, nn in A.combos(lints1=True):
         for labels in (("int",) if tier == "quick" else ("int", "str")):
-            out.append({"ln": ln, "nn": nn, "labels": labels, "depth": 2 if tier == "quick" else 3,
-                        "cdepth": 1 if tier == "quick" else 2, "seed": 13 + seed})
+            out.append({"ln": ln, "nn": nn, "labels": labels, "depth": 2 if (tier == "quick" or labels == "str") else 3,
+                        "cdepth": 1, "all_methods": tier != "quick", "seed": 13 + seed})
     return A.heavy_first(out)
 
 
@@ -128,7 +128,7 @@ def run_shard(shard):
             o = original(cfg, hist)
             e = _run_cont(o, cont)
             expected.append(e or observe_inplace(o, qs))
-        for method in (METHODS if shard["cdepth"] > 1 else QUICK_METHODS):
+        for method in (METHODS if shard.get("all_methods") else QUICK_METHODS):
             for cont, msg in judge(cfg, hist, cf, method, conts, acc, key, expected):
                 acc.violation("%s/%s %s cont=%s" % (ln, nn, method, "+".join(o[0] for o in cont)),
                               {"cfg": cfg, "history": hist, "method": method, "cont": cont}, msg)
